@@ -104,6 +104,14 @@ packets of a larger one on the same topic; the Go scenario `concurrent-small-and
 (`C18:received-differs-from-sent:interleaved-senders`) then supplies the interleaving. -/
 theorem enqueue_under_stream_mutex : Gen.Mux.enqueueUnderStreamMutex = true := by decide
 
+/-- GENERATED FACT the model's per-topic assemblers (`Receiver.asm : TMap`, one independent byte string
+per stream) rest on: in `NewStreams` every `Stream{…}` gets a fresh `make(…)` as its `msgAssembler`, not a
+slice of a buffer shared between the streams of a connection. Without it a packet handled on one
+topic can overwrite the pending bytes of another; the Go scenario
+`interleaved-topics-first-large-message` (`C18:received-differs-from-sent:cross-topic-assembler`) then
+supplies the interleaving. -/
+theorem assembler_per_stream : Gen.Mux.assemblerPerStream = true := by decide
+
 /-- **delivery** (general form): for code that ends the connection on a partial enqueue, NO atomicity
 hypothesis is needed — for EVERY history, including enqueues that time out between packets at any
 point, the connection is never closed by the receiver's checks and for every topic the messages ever
@@ -132,6 +140,8 @@ theorem delivery (ops : List MuxOp) (hV : SendsValid Limits.code ops) (t : Nat) 
       ((Conn.run Limits.code Conn.init ops).r.log.get t).Sublist done :=
   -- the per-message atomic enqueue of `Conn.step (.send …)` is what `enqueue_under_stream_mutex` says of the code
   have _atomic := enqueue_under_stream_mutex
+  -- the independent per-topic assemblers of `Receiver` are what `assembler_per_stream` says of the code
+  have _assemblers := assembler_per_stream
   delivery_of_teardown Limits.code tears_down_on_partial ops hV t
 
 /-- a small instance of the limits for executable witnesses (2-byte packets, 6-byte messages) (`tearDownOnPartial = false`: the code before the repair) -/
